@@ -75,7 +75,7 @@ def run_case(prop, tier, seed, i):
             else:
                 payloads.append((-1, tuple(rand_shape(r) for _ in range(r.randrange(0, 3))),
                                  dict((kk, rand_shape(r)) for kk in r.sample(['k1', 'k2', 'zz'], r.randrange(1, 3)))))
-    cfg = {'n': r.choice([2, 3]), 'batch': batch, 'use_batch': r.random() < 0.5, 'journal': r.choice(['memory', 'file']),
+    cfg = {'cut_transfers': mode == 'random' and r.random() < 0.4, 'n': r.choice([2, 3]), 'batch': batch, 'use_batch': r.random() < 0.5, 'journal': r.choice(['memory', 'file']),
            'steps': 0, 'quiet': False, 'chunk': 65536, 'liveness': True, 'trace_len': 120, 'ext': ['args']}
     sim = Sim(cfg, rs)
     am = X.ArgsMonitor(sim.mon)
@@ -101,6 +101,8 @@ def run_case(prop, tier, seed, i):
                 sub = sim.subs.get(100000 + sim.uid) if sim.uid > before else None
                 if sub is None:
                     continue
+                if mode == 'random' and cfg.get('cut_transfers') and r.random() < 0.5:
+                    cut_a_transfer(sim, r, res)
                 rounds = 60 + (len(_approx(args)) // max(batch, 1)) * 2 if batch >= 7 else 400
                 if not wait(lambda: bool(sub['cbs']), min(rounds, 3000)):
                     raise Violation('C11', 'not_replicated', 'command with argument size %r (batch %d) got no callback on a healthy network '
@@ -145,6 +147,30 @@ def run_case(prop, tier, seed, i):
         res['sample'] = {'mode': mode, 'unit': unit, 'batch': batch, 'cfg': {k: cfg[k] for k in ('n', 'use_batch', 'journal')},
                          'sizes': [s for s, _, _ in payloads][:16]}
     return res
+
+
+def cut_a_transfer(sim, r, res):
+    """A connection of the leader breaks while a (possibly chunked) command is on its way: some of the messages queued on it
+    arrive, the rest is lost with the connection; the fair rounds that follow reconnect the pair and the transfer starts over."""
+    leaders = [p for p in sim.live() if p.voter and p.obj._isLeader()]
+    if not leaders:
+        return
+    L = leaders[0]
+    sim.one_step(('T', L.key, 0.0))
+    cands = []
+    for c in sim.conns.values():
+        side = c.side_of(L)
+        if side is not None and c.open[0] and c.open[1] and len(c.q[side]) >= 2:
+            cands.append((c, side))
+    if not cands:
+        return
+    c, side = r.choice(cands)
+    for _ in range(r.randrange(1, len(c.q[side]))):
+        if not sim.deliverable(c, side):
+            break
+        sim.one_step(('D', c.cid, side))
+    sim.one_step(('X', c.cid, 1 - side))      # the receiving end goes first: what was still on its way is lost
+    res['obs']['transfers_cut_midway'] += 1
 
 
 _OVH = {}
